@@ -151,8 +151,7 @@ theorem annotText_eq {k : Kind} {qt : Quantity} {a : Adapter} (ha : findAdapter 
 theorem C14_denotes_real (qt : Quantity) (hqt : qt ≠ .power) (reverse : Bool)
     (q : GQ) (d : Derived) (o : Opts) (hp : 1 ≤ o.precision) (h0 : (specValue qt reverse q).re ≠ 0)
     (hn : ¬ RoundsUpToOne (specValue qt reverse q).re o.precision)
-    (h16 : |(specValue qt reverse q).re| < 10000000000000000)
-    (hgap : NoSaturationGap (specValue qt reverse q).re o.precision 3) :
+    (h16 : |(specValue qt reverse q).re| < 10000000000000000) :
     ∃ s, annotText .real qt reverse q d o = some s
       ∧ RealOK (specValue qt reverse q).re o.precision 3 (specUnit qt) s := by
   obtain ⟨a, ha, _, hs, hpr, hu⟩ := C14_adapters .real qt
@@ -178,7 +177,7 @@ theorem C14_denotes_real (qt : Quantity) (hqt : qt ≠ .power) (reverse : Bool)
       · show CC.Gen.Fmt.print_real_call0.table.maxKey % 3 = 0
         decide
   have key := C18_real_domain (cfgOfCall CC.Gen.Fmt.print_real_call0 (specUnit qt) o.precision)
-    (specValue qt reverse q).re h0 hcfg hn h16 hgap
+    (specValue qt reverse q).re h0 hcfg hn h16
   refine ⟨_, ?_, key⟩
   rw [annotText_eq ha, hv]
   unfold textOf
@@ -192,9 +191,7 @@ with the sign rule, and each part text reads back (`parseBack`) to the magnitude
 within half a unit of the `p`-th digit, in engineering form, with the unit of the quantity. -/
 theorem C14_denotes_complex (qt : Quantity) (reverse : Bool) (q : GQ) (d : Derived) (o : Opts)
     (hpol : o.polar = false) (hp : 1 ≤ o.precision)
-    (hre : InDomain (specValue qt reverse q).re o.precision) (him : InDomain (specValue qt reverse q).im o.precision)
-    (gre : NoSaturationGap (qabs (specValue qt reverse q).re) o.precision 3)
-    (gim : NoSaturationGap (qabs (specValue qt reverse q).im) o.precision 3) :
+    (hre : InDomain (specValue qt reverse q).re o.precision) (him : InDomain (specValue qt reverse q).im o.precision) :
     ∃ Tre Tim : List Char,
       (let sr : List Char := if 0 ≤ (specValue qt reverse q).re then [] else ['-']
        let si : List Char := if 0 ≤ (specValue qt reverse q).im then ['+'] else ['-']
@@ -228,7 +225,7 @@ theorem C14_denotes_complex (qt : Quantity) (reverse : Bool) (q : GQ) (d : Deriv
     show (CC.Gen.Fmt.print_complex_call0.polar.getD o.polar) = false
     rw [hpol]; rfl
   have key := C18_complex_parts (scOfCall CC.Gen.Fmt.print_complex_call0 (specUnit qt) o.precision o.polar o.deg)
-    (specValue qt reverse q).re (specValue qt reverse q).im d.absV d.angle hpolar hcfg hre him gre gim
+    (specValue qt reverse q).re (specValue qt reverse q).im d.absV d.angle hpolar hcfg hre him
   have htext : annotText .complex qt reverse q d o
       = some ((scOfCall CC.Gen.Fmt.print_complex_call0 (specUnit qt) o.precision o.polar o.deg).str
           (specValue qt reverse q).re (specValue qt reverse q).im d.absV d.angle) := by
